@@ -13,7 +13,8 @@ CHECK = {
                      "ClusterVerif/Model/C14Crash.lean", "ClusterVerif/Spec/C14Crash.lean", "ClusterVerif/Lemmas/C14Crash.lean",
                      "ClusterVerif/Model/C14Start.lean", "ClusterVerif/Spec/C14Start.lean", "ClusterVerif/Lemmas/C14Start.lean",
                      "ClusterVerif/Model/C14Snaps.lean", "ClusterVerif/Spec/C14Snaps.lean", "ClusterVerif/Lemmas/C14Snaps.lean",
-                     "ClusterVerif/Model/C14Damage.lean", "ClusterVerif/Spec/C14Damage.lean", "ClusterVerif/Lemmas/C14Damage.lean"],
+                     "ClusterVerif/Model/C14Damage.lean", "ClusterVerif/Spec/C14Damage.lean", "ClusterVerif/Lemmas/C14Damage.lean",
+                     "ClusterVerif/Model/C14Crdt.lean", "ClusterVerif/Spec/C14Crdt.lean"],
     "rule": "pins: (pinset of 0-40 generated pins over all types/options, prior content of the target, stream damage) through "
             "Marshal/Unmarshal, SnapshotSave/OfflineState, raft and crdt state-manager export/import (and a started Raft peer on some); "
             "rot: (retention, pre-existing folder set with gaps/outside the window, 1-14 clean/save/mkdir/reconfigure operations) on real folders; "
@@ -57,6 +58,9 @@ META = {
             "refused and touches nothing, `state import` succeeds on every folder and backs the whole folder up (save_refused_on_damaged_newest, import_onto_damaged_id); of equal keys the one created last is read "
             "(tie_latest_created_wins); retention never removes what is read (reap_keeps_newest). raftStateManager.ImportState is tied semantically: its operation list read from the syntax tree, INTERPRETED "
             "on the folder model, is the model's import for every folder (gen_sem_import_is_model). "
+            "The crdt side on a SHARED datastore (entries of the crdt namespace next to others): crdtStateManager.ImportState = crdt.Clean of the namespace, one batch, Commit; offline read = the dsstate under the namespace: "
+            "export -> crdt import onto ANY store content -> offline read / crdt export is the pinset (crdt_import_export_id), what is read afterwards depends on the stream only and other namespaces are untouched "
+            "(crdt_import_replaces, crdt_import_is_model; refuted: an import without Clean keeps a prior pin), observed on the real crdt manager over leveldb and badger (crdt=, oth= of the pins suite). "
             "The model is tied to today's code by running the real dsstate, raft snapshot/cleanup functions, cmdutils state managers and "
             "pstoremgr, and a real single-voter Raft peer (writes the folder, is killed or shut down, is started again after the import) on seeded cases and checking model agreement and the Lean property checker on the real outputs.",
     "note": "export/import is proved for pinsets without origins; a pin with origins cannot be decoded from JSON (known finding K01c). "
